@@ -242,6 +242,9 @@ class PropCheck:
     assumptions: List[str] = []
     exhaustive = False
     extra_trusted: List[str] = []
+    #: run the spec judge on every compared case (True) or only on model/implementation disagreements, the open
+    #: known findings and the search inputs (False: for properties whose theorems are complete and whose judge is costly)
+    judge_all = True
 
     def impl(self, line: str) -> str:
         """run one protocol line on the real code, return the canonical result string"""
@@ -263,6 +266,14 @@ class PropCheck:
 
     def nontrivial(self, line: str, impl_out: str) -> bool:
         return not impl_out.startswith("exc=")
+
+    def known_check(self) -> List["Finding"]:
+        """Replay the inputs of this property's *open* known findings on the implementation and
+        judge them (DESIGN §6 step 3); the findings returned here are matched against
+        known_findings.json by `finish` (KNOWN-FINDING line, never a VIOLATION of their own)."""
+        open_known, _ = load_known(self.prop)
+        lines = [c for k in open_known for c in k.get("inputs", [])]
+        return self.judge([(l, impl_safe(self, l), None) for l in lines]) if lines else []
 
 
 def impl_safe(pc: PropCheck, line: str) -> str:
@@ -293,7 +304,7 @@ def correspond(pc: PropCheck, res: Result, cases: List[Tuple[str, str]], chunk=2
             triples.append((l, io, mo))
             if io != mo:
                 bad.append((l, io, mo))
-        viol += pc.judge(triples)
+        viol += pc.judge(triples if pc.judge_all else [t for t in triples if t[1] != t[2]])
     res.disagreements += [{"case": l[:2000], "impl": io[:2000], "model": mo[:2000]} for l, io, mo in bad[:50]]
     return bad, viol
 
@@ -329,6 +340,8 @@ def run_check(pc: PropCheck, tier: str) -> int:
     broken = list(a.problems)
     cases = corpus_lines(pc.prop) + pc.cases(res, tier, rng)
     bad, viol = correspond(pc, res, cases) if (a.build_ok or DRV.exists()) else ([], [])
+    kviol = pc.known_check()
+    viol = viol + [v for v in kviol if v.case not in {x.case for x in viol}]
     if bad:
         judged = {v.case for v in viol}
         broken += [f"correspondence: {l[:300]} :: impl={first_diff(io, mo)}"
